@@ -848,6 +848,13 @@ def main(argv):
     if to_stdout:
         sys.stdout.write(text)
         return rc
+    if rc != 0:
+        # nothing may be compiled against the compiled form of an earlier, accepted source
+        for ext in ('.vo', '.vos', '.vok', '.glob'):
+            try:
+                os.remove(outp[:-2] + ext)
+            except OSError:
+                pass
     old = open(outp).read() if os.path.exists(outp) else None
     if old != text:
         os.makedirs(os.path.dirname(outp), exist_ok=True)
